@@ -83,7 +83,8 @@ fn get_node_cover_range_impl(
     (node_range.start <= range.start
         && node_range.end >= range.end
         && (is_root_markup(&node) || node.is::<Expr>() || node.is::<Pattern>())
-        && !is_callee(&node))
+        && !is_callee(&node)
+        && !is_blank(&node))
     .then(|| (node.span(), mode))
     // It returns span to avoid problems with borrowing.
 }
@@ -101,4 +102,9 @@ fn is_callee(node: &LinkedNode<'_>) -> bool {
 /// knows how to treat the blanks at its edges and the indentation of nested items.
 fn is_root_markup(node: &LinkedNode<'_>) -> bool {
     node.is::<Markup>() && node.parent().is_none()
+}
+
+/// Spaces and paragraph breaks end with the indentation of the next line, which only the enclosing node can restore.
+fn is_blank(node: &LinkedNode<'_>) -> bool {
+    matches!(node.kind(), SyntaxKind::Space | SyntaxKind::Parbreak)
 }
